@@ -52,12 +52,26 @@ def main() -> int:
     demo = os.path.join(out, 'demo.py')
     with_change = sh(['/venv/bin/python', demo], env=env, cwd=out)
     nstable, npassed, missing = suite(wt)
-    sh(['git', '-C', wt, 'stash'])
+    # undo / redo the change with the diff itself (`git stash` is shared by all worktrees of a repository: two
+    # verifications running at the same time would swap their changes)
+    tmpd = tempfile.mktemp(suffix='.diff')
+    open(tmpd, 'w').write(diff)
+    r1 = sh(['git', '-C', wt, 'apply', '-R', tmpd])
     try:
         without = sh(['/venv/bin/python', demo], env=env, cwd=out)
     finally:
-        sh(['git', '-C', wt, 'stash', 'pop'])
+        r2 = sh(['git', '-C', wt, 'apply', tmpd])
+        os.remove(tmpd)
+    if r1.returncode != 0 or r2.returncode != 0:
+        print('could not undo/redo the change: ' + r1.stderr + r2.stderr)
+        return 2
     ok = with_change.returncode != 0 and without.returncode == 0 and not missing
+    agent_patch = os.path.join(out, 'patch.diff')
+    if os.path.exists(agent_patch):
+        def norm(t):
+            return [l for l in t.split('\n') if l.startswith(('+', '-')) and not l.startswith(('+++', '---'))]
+        if norm(open(agent_patch).read()) != norm(diff):
+            print(f'{sid}: WARNING the worktree diff differs from the delivered patch.diff (the worktree diff is what is kept)')
     print(f'{sid}: demo with change exit={with_change.returncode}, without exit={without.returncode}; '
           f'suite stable={nstable} passing={npassed} newly_failing={len(missing)} -> {"VALID" if ok else "REJECTED"}')
     for m in missing[:10]:
